@@ -3,3 +3,5 @@ open ZCV.Props.C01
 #print axioms C01_isAllowedName_spec
 #print axioms C01_key_routing
 #print axioms C01_unknown_key_rejected
+#print axioms C01_accept_iff_conforms
+#print axioms C01_nonconforming_rejected
